@@ -251,7 +251,17 @@ Proof. vm_compute. reflexivity. Qed.
     stops checking then. *)
 From GoBT Require gen.Structs model.StateInventory.
 Theorem C08_state_inventory :
-  forall k, In k (StateInventory.group_of "C08") ->
+  forall k, In k (StateInventory.group_of StateInventory.pC08) ->
   exists f, StateInventory.lookup_gen gen.Structs.structs k = Some f /\ StateInventory.lookup_model k = Some f.
 Proof. apply StateInventory.inventory_ok_spec. vm_compute. reflexivity. Qed.
 Print Assumptions C08_state_inventory.
+
+(** Package-level state (tie, translator part): in the source as it is NOW (gen/Globals.v) no package-level variable of
+    the packages this property's code lives in can change after initialisation or is handed out by reference - the
+    model's functions are functions of their arguments only (model/StateInventory.v). *)
+From GoBT Require gen.Globals.
+Theorem C08_no_mutable_package_state :
+  forall g, In g gen.Globals.globals -> In (StateInventory.rg_pkg g) (StateInventory.packages_of StateInventory.pC08) ->
+  StateInventory.rg_mutated g = false /\ StateInventory.rg_escapes g = false.
+Proof. apply StateInventory.pkg_state_ok_spec. vm_compute. reflexivity. Qed.
+Print Assumptions C08_no_mutable_package_state.
